@@ -3,6 +3,7 @@
 package server
 
 import (
+	"context"
 	"net"
 	"net/netip"
 	"time"
@@ -99,9 +100,27 @@ type VerifC10UDP struct {
 // nil, is the real *Server (ServeRaw / ServeRawInline / ServeRawReplay);
 // otherwise the script stands in. slabCap > 0 overrides the admission cap.
 func VerifC10NewUDP(script VerifC10Script, srv *Server, inline bool, queue int, slabCap int) (*VerifC10UDP, error) {
-	pc, err := net.ListenUDP("udp4", &net.UDPAddr{IP: net.IPv4(127, 0, 0, 1)})
-	if err != nil {
-		return nil, err
+	return VerifC10NewUDPBind(script, srv, inline, queue, slabCap, false)
+}
+
+// VerifC10NewUDPBind: wildcard=true binds 0.0.0.0 with the listener's own
+// pktinfo socket options, so every read carries a destination-address control
+// message and every reply is sent with the prepared pktinfo of ITS read.
+func VerifC10NewUDPBind(script VerifC10Script, srv *Server, inline bool, queue int, slabCap int, wildcard bool) (*VerifC10UDP, error) {
+	var pc *net.UDPConn
+	if wildcard {
+		lc := net.ListenConfig{Control: pktinfoControl("udp")}
+		c, err := lc.ListenPacket(context.Background(), "udp4", "0.0.0.0:0")
+		if err != nil {
+			return nil, err
+		}
+		pc = c.(*net.UDPConn)
+	} else {
+		c, err := net.ListenUDP("udp4", &net.UDPAddr{IP: net.IPv4(127, 0, 0, 1)})
+		if err != nil {
+			return nil, err
+		}
+		pc = c
 	}
 	var h rawHandler
 	if srv != nil {
@@ -109,7 +128,7 @@ func VerifC10NewUDP(script VerifC10Script, srv *Server, inline bool, queue int, 
 	} else {
 		h = &verifC10Handler{f: script, inline: inline}
 	}
-	e := newUDPEngine(h, []*net.UDPConn{pc}, false, 1, queue, defaultResourcePlan(1))
+	e := newUDPEngine(h, []*net.UDPConn{pc}, wildcard, 1, queue, defaultResourcePlan(1))
 	if slabCap > 0 {
 		e.slabCap = int64(slabCap)
 	}
@@ -121,7 +140,13 @@ func VerifC10NewUDP(script VerifC10Script, srv *Server, inline bool, queue int, 
 	return u, nil
 }
 
-func (u *VerifC10UDP) Addr() *net.UDPAddr { return u.pc.LocalAddr().(*net.UDPAddr) }
+func (u *VerifC10UDP) Addr() *net.UDPAddr {
+	a := *u.pc.LocalAddr().(*net.UDPAddr)
+	if a.IP.IsUnspecified() {
+		a.IP = net.IPv4(127, 0, 0, 1)
+	}
+	return &a
+}
 func (u *VerifC10UDP) Inline() bool       { return u.e.inline != nil }
 func (u *VerifC10UDP) Close() {
 	_ = u.pc.Close()
@@ -365,6 +390,46 @@ func VerifC10Sizes() map[string]int {
 		"tcp_drain":     tcpDrainSize,
 		"tcp_min_frame": minTCPFrame,
 	}
+}
+
+// VerifC10CarrierScript drives one REAL jobCarrier (the job-owned context of
+// the strict path) through a script: p<k> TryPin(key k), q<k> Pinned(key k),
+// v TrySetProvider, w "is a provider set?", r reset. Returns one token per op.
+type verifC10Key int
+type verifC10Provider struct{}
+
+func (verifC10Provider) ContextValue(key any) (any, bool) { return nil, false }
+
+func VerifC10CarrierScript(ops []string) []string {
+	var c jobCarrier
+	out := make([]string, len(ops))
+	for i, op := range ops {
+		k := 0
+		if len(op) > 1 {
+			k = int(op[1] - '0')
+		}
+		switch op[0] {
+		case 'p':
+			out[i] = map[bool]string{true: "t", false: "f"}[c.TryPin(verifC10Key(k), k+100)]
+		case 'q':
+			v, ok := c.Pinned(verifC10Key(k))
+			if ok {
+				out[i] = "some" + string(rune('0'+v.(int)-100))
+			} else {
+				out[i] = "none"
+			}
+		case 'v':
+			out[i] = map[bool]string{true: "t", false: "f"}[c.TrySetProvider(verifC10Provider{})]
+		case 'w':
+			c.mu.Lock()
+			out[i] = map[bool]string{true: "t", false: "f"}[c.provider != nil]
+			c.mu.Unlock()
+		case 'r':
+			c.reset(time.Unix(int64(i), 0))
+			out[i] = "ok"
+		}
+	}
+	return out
 }
 
 // ---- TCP ----
